@@ -291,7 +291,7 @@ def run(tier):
     else:
         cfg = {"kd": 3, "kd2": 2, "ke": 2, "d_rows": inputs.D_ROWS_Q + [("b", 1, 2.0)], "e_rows": inputs.E_ROWS_Q, "backends": ["polars_eager", "polars_lazy", "sqlite"], "index_all": True}
         ex1 = explorer.Explorer(menus.core_menu, key_extra=final_request)
-        s1 = ex1.run(2)
+        s1 = ex1.run(1)
         ex2 = explorer.Explorer(c18_slice, key_extra=final_request)
         s2 = ex2.run(2)
     seen = {}
@@ -310,7 +310,7 @@ def run(tier):
     ]
     return run.finish(
         exhaustive=True,
-        rule=f"every state at depth <= {'1 over the core menu and <= 2 over the ordering/window slice' if tier == 'quick' else '2 over the core menu and the ordering/window slice'} x every sequence (all row orders of every multiset) of <= {cfg['kd']} rows of d (<= {cfg['kd2']} x <= {cfg['ke']} rows of e for two-table pipelines) x Pandas index variants (default, reversed, duplicate labels, strings) x backends {['pandas'] + cfg['backends']}",
+        rule=f"every state at depth <= {'1 over the core menu and <= 2 over the ordering/window slice' if tier == 'quick' else '1 over the core menu and <= 2 over the ordering/window slice (4-row alphabet, every index variant on every ordering, lazy frames too)'} x every sequence (all row orders of every multiset) of <= {cfg['kd']} rows of d (<= {cfg['kd2']} x <= {cfg['ke']} rows of e for two-table pipelines) x Pandas index variants (default, reversed, duplicate labels, strings) x backends {['pandas'] + cfg['backends']}",
     )
 
 
